@@ -115,6 +115,18 @@ def parseOp (line : String) : Option Op :=
   | "dump" => some .dump
   | _ => none
 
+def atomicKinds : List String := ["createtenant", "deposit", "record", "cancel", "addadmin", "rmadmin", "setperiod", "prevote", "vote", "consent"]
+
+/-- "atomic msg ;; msg ;; ..." -/
+def parseAtomic (line : String) : Option (List Op) :=
+  let body := (line.drop 7).toString
+  let parts := body.splitOn " ;; "
+  parts.foldr (fun p acc =>
+    let kind := ((p.splitOn " ").filter (· != "")).getD 0 ""
+    match acc, (if atomicKinds.contains kind then parseOp p else none) with
+    | some l, some op => some (op :: l)
+    | _, _ => none) (some [])
+
 /-! ### printing -/
 
 def joinOrDash (xs : List String) : String := if xs.isEmpty then "-" else ",".intercalate xs
@@ -190,7 +202,7 @@ def dumpBalances (s : State) (seen : List Str) : List String :=
 def namedMax : Nat := 8
 
 /-- the (tenant token, request-id token) pairs the history has named, latest last, at most `namedMax` -/
-def noteNamed (named : List (String × String)) (l : String) : List (String × String) :=
+def noteNamed1 (named : List (String × String)) (l : String) : List (String × String) :=
   let f := (l.splitOn " ").filter (· != "")
   let g (i : Nat) : String := f.getD i ""
   let k : Option (String × String) := match g 0 with
@@ -203,6 +215,9 @@ def noteNamed (named : List (String × String)) (l : String) : List (String × S
   | some k =>
     let n := (named.filter (· != k)) ++ [k]
     n.drop (n.length - namedMax)
+
+def noteNamed (named : List (String × String)) (l : String) : List (String × String) :=
+  if l.startsWith "atomic " then ((l.drop 7).toString.splitOn " ;; ").foldl noteNamed1 named else noteNamed1 named l
 
 def viewLine (v : TenantView) : String :=
   tenantLine v.tenant ++ " treasury=" ++ (match v.balance with | some b => toString b | none => "-") ++ " addr=ok"
@@ -287,6 +302,22 @@ partial def chainLoop (stdin : IO.FS.Stream) (s : State) (seen : List Str) (name
       for d in dumpModules s2 do
         IO.println ("| " ++ d)
       chainLoop stdin s seen named
+  else if l.startsWith "atomic " then
+    IO.println ("> " ++ l)
+    match parseAtomic l with
+    | none =>
+      IO.println "< bad-op"
+      chainLoop stdin s seen named
+    | some ops =>
+      let s' := atomicStep sha s ops
+      IO.println (match runBatch sha s ops with
+        | some _ => "< ok " ++ toString ops.length
+        | none => "< err " ++ toString (batchFailIndex sha s ops))
+      let seen' := updateSeen seen s'
+      let named' := noteNamed named l
+      for d in dumpChain s' seen' ++ dumpQueries s' named' do
+        IO.println ("| " ++ d)
+      chainLoop stdin s' seen' named'
   else
     IO.println ("> " ++ l)
     match parseOp l with
